@@ -324,8 +324,10 @@ class SegmModel:
                 rows.append(r4)
             return rows
         found = []
+        body = body_wo_doc(fn)
+        stopped_at, stop_error = None, None
         try:
-            for st in body_wo_doc(fn):
+            for si, st in enumerate(body):
                 if isinstance(st, (ast.For, ast.While)):
                     # a loop that can be evaluated (a scan of a static table) belongs to the prefix; the walk cannot
                     trial = {k_: (v_.copy() if isinstance(v_, Arr) else v_) for k_, v_ in env.items()}
@@ -336,8 +338,8 @@ class SegmModel:
                         continue
                     except (PyRaise, RaiseReached, _Return):
                         raise
-                    except AnalysisError:
-                        pass
+                    except AnalysisError as e:
+                        stop_error = e
                     if isinstance(st, ast.For):
                         try:
                             t = is_table(ev.eval(st.iter, env))
@@ -345,19 +347,52 @@ class SegmModel:
                                 found.append(t)
                         except AnalysisError:
                             pass
+                    stopped_at = si
                     break
-                ev.exec_stmt(st, env)
+                try:
+                    ev.exec_stmt(st, env)
+                except (PyRaise, RaiseReached, _Return):
+                    raise
+                except AnalysisError as e:
+                    # the walk may start in a plain statement (a generator expression, a helper that walks): what cannot be
+                    # evaluated without a metric ends the prefix -- provided a cone table is alive by then
+                    stopped_at, stop_error = si, e
+                    break
         except (PyRaise, RaiseReached, _Return):
             return None            # the combination is rejected before the walk starts
         # tables bound to names the walk itself mentions (a scan of a table of tables leaves its loop variables behind)
-        used = {n_.id for n_ in ast.walk(st) if isinstance(n_, ast.Name)} if isinstance(st, (ast.For, ast.While)) else set(env)
+        rest = body[stopped_at:] if stopped_at is not None else []
+        used = {n_.id for r_ in rest for n_ in ast.walk(r_) if isinstance(n_, ast.Name)} if rest else set(env)
+
+        def tables_in(v, depth=0):
+            if isinstance(v, (str, bool, type(None))) or depth > 2:
+                return
+            try:
+                t = is_table(v) if not isinstance(v, dict) else None
+            except AnalysisError:
+                t = None           # a record that mixes tables with text
+            if t is not None:
+                yield t
+                return
+            kids = []
+            if hasattr(v, "fields") and hasattr(v, "values"):
+                kids = list(v.values)
+            elif hasattr(v, "attrs") and isinstance(getattr(v, "attrs"), dict):
+                kids = list(v.attrs.values())
+            elif isinstance(v, (list, tuple)) and depth < 2 and len(v) <= 8:
+                kids = list(v)
+            for k in kids:
+                for t in tables_in(k, depth + 1):
+                    yield t
         if not found:
             for k_, v in env.items():
                 if k_ not in used:
                     continue
-                t = is_table(v) if not isinstance(v, (str, bool, type(None))) else None
-                if t is not None and t not in found:
-                    found.append(t)
+                for t in tables_in(v):
+                    if t not in found:
+                        found.append(t)
+        if not found and stop_error is not None:
+            raise stop_error
         if len(found) > 1:
             raise AnalysisError("%s genhkl_base: several cone tables are alive when the walk starts for Laue %r / %r" % (self.rel, Laue, cc))
         return found[0] if found else None
